@@ -383,7 +383,7 @@ fn signature(cfg: &FsCfg, hist: &[Op], clause: &str, obs: &str) -> (String, Vec<
     // across depths and alphabets.
     let creator = |o: &Op| matches!(o, Op::Create(_) | Op::CreateNew(_) | Op::OpenTrunc(_) | Op::Cursor(_));
     if cur.iter().any(|o| matches!(o, Op::RenameD(..))) {
-        return ("fs-name-reuse:directory-rename".into(), cur);
+        return (format!("fs-name-reuse:directory-rename|{obs}"), cur);
     }
     for (i, o) in cur.iter().enumerate() {
         if let Op::Rmdir(d) | Op::RmdirAll(d) = o {
@@ -392,12 +392,12 @@ fn signature(cfg: &FsCfg, hist: &[Op], clause: &str, obs: &str) -> (String, Vec<
                 Op::Mkdir(e) | Op::MkdirAll(e) => DIRS[*e as usize] == dn || crate::model::is_under(DIRS[*e as usize], dn),
                 _ => false,
             }) {
-                return ("fs-name-reuse:directory-remove-then-recreate".into(), cur);
+                return (format!("fs-name-reuse:directory-remove-then-recreate|{obs}"), cur);
             }
         }
         if let Op::RemoveFile(f) = o {
             if cur[i + 1..].iter().any(|x| creator(x) && x.paths().first() == Some(&FILES[*f as usize])) {
-                return ("fs-name-reuse:file-remove-then-recreate".into(), cur);
+                return (format!("fs-name-reuse:file-remove-then-recreate|{obs}"), cur);
             }
         }
     }
@@ -410,7 +410,29 @@ fn signature(cfg: &FsCfg, hist: &[Op], clause: &str, obs: &str) -> (String, Vec<
     if cur.iter().any(|o| matches!(o, Op::RenameF(..)))
         && (!matches!(cur.last(), Some(Op::RenameF(..))) || created.len() >= 2)
     {
-        return ("fs-name-reuse:file-rename-with-pending-operations".into(), cur);
+        let cross = cur.iter().any(|o| match o {
+            Op::RenameF(a, b) => crate::model::parent(FILES[*a as usize]) != crate::model::parent(FILES[*b as usize]),
+            _ => false,
+        });
+        // a file created again under the name that was renamed away
+        let mut recreated = false;
+        for (i, o) in cur.iter().enumerate() {
+            if let Op::RenameF(a, _) = o {
+                if cur[i + 1..].iter().any(|x| creator(x) && x.paths().first() == Some(&FILES[*a as usize])) {
+                    recreated = true;
+                }
+            }
+        }
+        let mut sig = String::from("fs-name-reuse:file-rename-with-pending-operations");
+        if cross {
+            sig.push_str(":cross-directory");
+        }
+        if recreated {
+            sig.push_str(":old-name-recreated");
+        }
+        sig.push('|');
+        sig.push_str(obs);
+        return (sig, cur);
     }
     // path roles by first occurrence
     let mut names: Vec<&'static str> = vec![];
